@@ -234,8 +234,8 @@ func c17ParseTPS(rows, turn, mvn string) (*aboard, int) {
 		for _, cell := range strings.Split(r, ",") {
 			g := c17CellRE.FindStringSubmatch(cell)
 			if g == nil {
-				if cell == "" || cell == "S" || cell == "C" || strings.Trim(cell, "12SCx0123456789") != "" {
-					return nil, cBad // empty cell, bare marker, foreign character
+				if cell == "" || cell == "S" || cell == "C" {
+					return nil, cBad // empty cell, bare marker
 				}
 				cls = cUnsure
 				continue
@@ -791,10 +791,16 @@ func c17SameLines(a, b []string) bool {
 // judge the answer of one go: out = the lines it produced
 func (o *c17Oracle) judgeGo(e c17Expect, out []string, ctx string) {
 	if len(out) == 0 {
+		if e.goKind == 0 && e.goPos != nil {
+			o.stats["tiny_clock_go_without_bestmove"]++ // live position, clock (nearly) exhausted: the search was cut before its first iteration
+		}
 		if e.goKind == 1 {
 			o.fail("go-no-bestmove", ctx+": no output", "info line + one bestmove naming a legal move of "+c17Enc(e.goPos))
 		}
 		return
+	}
+	if e.goKind == 0 && e.goPos != nil {
+		o.stats["tiny_clock_go_answered"]++
 	}
 	nbest := 0
 	for _, l := range out {
@@ -880,6 +886,10 @@ func (o *c17Oracle) panicClass(line string, st string) string {
 func (o *c17Oracle) judgeLines(lines []string, recs []c17Rec) {
 	for i, line := range lines {
 		if i >= len(recs) {
+			if len(recs) == 1 && recs[0].st == "H" {
+				o.fail("tei-hang", "the script did not come back within the watchdog time", "every command is answered in bounded time")
+				return
+			}
 			o.fail("tei-driver", "no record for line "+strconv.Itoa(i), "one record per line")
 			return
 		}
@@ -889,6 +899,10 @@ func (o *c17Oracle) judgeLines(lines []string, recs []c17Rec) {
 		_ = sizeBefore
 		if strings.HasPrefix(r.st, "P") {
 			o.fail(o.panicClass(line, r.st), ctx+": Run panicked: "+r.st[1:], "a value or an error, never a panic")
+			return
+		}
+		if r.st == "H" {
+			o.fail("tei-hang", "the script did not come back within the watchdog time", "every command is answered in bounded time")
 			return
 		}
 		e := o.expect(line)
@@ -959,6 +973,10 @@ func (o *c17Oracle) judgeStream(lines []string, r c17Rec) {
 	if strings.HasPrefix(r.st, "P") {
 		// find the line: the first whose expectation cannot be matched is a guess; report the script
 		o.fail("tei-panic", "Run panicked: "+r.st[1:], "a value or an error, never a panic")
+		return
+	}
+	if r.st == "H" {
+		o.fail("tei-hang", "Run did not come back within the watchdog time", "every command is answered in bounded time")
 		return
 	}
 	out := r.out
@@ -1385,6 +1403,37 @@ func (g *c17Gen) script(id int) *c17Script {
 		text += "\n" // mode R sometimes leaves the last line unterminated: Run never sees it
 	}
 	s.text = []byte(text)
+	if r.Intn(12) == 0 {
+		// byte-level damage: arbitrary bytes, NUL, invalid UTF-8, Unicode spaces, stray line breaks
+		s.family = "bytes"
+		b := s.text
+		for k := 0; k < 1+r.Intn(6) && len(b) > 0; k++ {
+			i := r.Intn(len(b))
+			var ins []byte
+			switch r.Intn(8) {
+			case 0:
+				ins = []byte{byte(r.Intn(256))}
+			case 1:
+				ins = []byte{0}
+			case 2:
+				ins = []byte([]string{"\u0085", "\u00a0", "\u1680", "\u2003", "\u2028", "\u202f", "\u205f", "\u3000", "\u200b", "\ufeff"}[r.Intn(10)])
+			case 3:
+				ins = []byte{'\n'}
+			case 4:
+				ins = []byte{0xe2, 0x80}
+			case 5:
+				ins = []byte{0xc2}
+			case 6: // delete
+				b = append(b[:i:i], b[i+1:]...)
+				continue
+			case 7: // replace
+				b[i] = byte(r.Intn(256))
+				continue
+			}
+			b = append(b[:i:i], append(ins, b[i:]...)...)
+		}
+		s.text = b
+	}
 	c17MarkTiny(s)
 	return s
 }
@@ -1412,7 +1461,18 @@ func (g *c17Gen) tinyScript() *c17Script {
 	}
 	lines := []string{"teinewgame " + strconv.Itoa(size), strings.Join(words, " ")}
 	for k := 0; k < 1+r.Intn(3); k++ {
-		lines = append(lines, strings.Join(append([]string{"go"}, g.goArgs(false)...), " "))
+		var a []string
+		switch r.Intn(4) {
+		case 0: // one millisecond left: no thinking time at all
+			a = []string{"wtime", "1", "btime", "1"}
+		case 1:
+			a = []string{"movetime", strconv.Itoa(1 + r.Intn(5))}
+		case 2:
+			a = []string{"wtime", strconv.Itoa(1 + r.Intn(30)), "btime", strconv.Itoa(1 + r.Intn(30)), "winc", strconv.Itoa(r.Intn(3))}
+		default:
+			a = g.goArgs(false)
+		}
+		lines = append(lines, strings.Join(append([]string{"go"}, a...), " "))
 	}
 	s.text = []byte(strings.Join(lines, "\n") + "\n")
 	return s
@@ -1677,7 +1737,7 @@ func runC17(c *ctx) {
 	g := &c17Gen{r: c.r}
 	n := 1000
 	if c.tier == "thorough" {
-		n = 30000
+		n = 20000
 	}
 	scripts := make([]*c17Script, 0, n+100)
 	// fixed scripts: the repaired crashes and the hand-made histories of the property text
